@@ -126,6 +126,9 @@ package bitcoin_reader
 //@ func (*StoragePeerRepository).Load
 //@   requires repo != nil
 //@   ensures [C20.load-invariant] peersInv(repo)
+// The only refusals that depend on the content are an unknown version and a negative count: in particular a count
+// that is larger than what the remaining bytes can hold (a file cut short) must not refuse the peers before the cut.
+//@   lemma [C20.refuses-only-version-or-negative-count] before github.com/pkg/errors.New: version != 0 || count < 0
 //@   safety [C20,C15]
 //@   modifies all
 //@   loop 1
@@ -523,6 +526,8 @@ package bitcoin_reader
 //@ pure func blockEvents() int = ghostv("coinbase", 0) + ghostv("confirmed", 0) + ghostv("appended", 0)
 
 //@ func (*BlockDownloader).handleBlock
+// one return is dead code under the trusted merkle-tree contract: the proof-count mismatch
+//@   deadreturns 1
 //@   requires bd != nil && header != nil && bd.txProcessor != nil && bd.blockTxManager != nil && txChannel != nil
 //@   requires [C04.only-requested-block] hashOf(header) == bd.hash
 //@   ensures [C04.gated-by-count-and-root] blockEvents() != old(blockEvents()) ==> recvd(txChannel) - old(recvd(txChannel)) == txCount && ghostv("merkleCount", 0) == txCount && ghostv("merkleRoot", 0) == header.MerkleRoot
@@ -608,9 +613,10 @@ package bitcoin_reader
 // requestBlock starts threads (environment): it only adds a freshly created downloader to the list.
 //@ trusted func (*BlockManager).requestBlock
 //@   requires m != nil
+//@   ensures ghostv("blockRequests", m) == old(ghostv("blockRequests", m)) + 1
 //@   ensures old(dlOK(m.downloaders)) ==> dlOK(m.downloaders)
 //@   ensures forall(i, 0, len(m.downloaders), exists(j, 0, old(len(m.downloaders)), old(m.downloaders[j].downloader.Complete) == m.downloaders[i].downloader.Complete) || fresh(m.downloaders[i].downloader.Complete))
-//@   modifies m.downloaders, allelems(*downloadThread), m.downloaderLock
+//@   modifies m.downloaders, allelems(*downloadThread), m.downloaderLock, ghost("blockRequests")
 
 // cancelDownloaders cancels every listed downloader of the hash: only channels of listed downloaders are signalled.
 //@ func (*BlockManager).cancelDownloaders
@@ -638,10 +644,14 @@ package bitcoin_reader
 //@   requires [C16.request-channel-private] !isDownloadChan(m.downloaders, request.complete)
 //@   ensures [C16.one-terminal-signal] result == nil ==> (sent(request.complete) == old(sent(request.complete)) + 1 && !closed(request.complete) && chanlog(request.complete, old(sent(request.complete))) == BlockAborted) || (closed(request.complete) && sent(request.complete) == old(sent(request.complete)))
 //@   ensures [C16.no-signal-on-error] result != nil ==> sent(request.complete) == old(sent(request.complete)) && !closed(request.complete)
-//@   modifies allheap, allchans(interface{}), allchans(error), ghost("cancelFoundStarted")
+// A further download of the block is only started while fewer than the configured number are listed for it: after
+// the initial request (one per request, ghost counter "blockRequests"), every call of requestBlock is preceded by
+// a count of the listed downloaders of the hash that is below the limit.
+//@   lemma [C16.top-up-below-limit] before (*BlockManager).requestBlock: ghostv("blockRequests", m) > old(ghostv("blockRequests", m)) ==> activeDownloadCount < m.concurrentBlockRequests
+//@   modifies allheap, allchans(interface{}), allchans(error), ghost("cancelFoundStarted"), ghost("blockRequests")
 //@   safety [C16]
 //@   loop 1
-//@     modifies m.downloaders, allelems(*downloadThread), m.downloaderLock, allof(BlockDownloader.Mutex), allelems(fmt.Stringer)
+//@     modifies m.downloaders, allelems(*downloadThread), m.downloaderLock, allof(BlockDownloader.Mutex), allelems(fmt.Stringer), ghost("blockRequests")
 //@     invariant request.complete == atentry(request.complete) && request.abort == atentry(request.abort) && m.currentComplete == atentry(m.currentComplete)
 //@     invariant dlOK(m.downloaders)
 //@     invariant !isDownloadChan(m.downloaders, request.complete)
